@@ -297,7 +297,7 @@ func c02Adversary(r *kernel.Run, tp *kernel.Tape, w *Wire, srv *World, loader bo
 	}
 	adv := &advClient{}
 	// ---- which certificate and key the client presents
-	certKind := Pick2(tp, "own", "own", "own", "stolen-leaf", "foreign-root", "self-signed", "server-auth-for-victim", "server-auth-for-victim", "self-signed-p256-naming-victim")
+	certKind := Pick2(tp, "own", "own", "own", "stolen-leaf", "foreign-root", "self-signed", "server-auth-for-victim", "server-auth-for-victim", "self-signed-p256-naming-victim", "own-self-signed-leaf-then-victims-genuine-certificate")
 	claim := me
 	bundle := me.creds.CertificateBundles[tp.Draw(2)]
 	_, atkKey, _ := ed25519.GenerateKey(rand.Reader)
@@ -320,6 +320,14 @@ func c02Adversary(r *kernel.Run, tp *kernel.Tape, w *Wire, srv *World, loader bo
 		claim = victim
 		der := mintLeaf(nil, atkKey, atkPub, victim.id.Pkix, victim.id.KeyId, x509.ExtKeyUsageClientAuth, now.Add(-time.Hour), now.Add(24*time.Hour))
 		adv.chain, adv.key, adv.holdsKey = [][]byte{der}, atkKey, true
+	case "own-self-signed-leaf-then-victims-genuine-certificate":
+		// TLS proves possession of the key of the FIRST certificate only. Behind its own self-signed leaf the client sends
+		// the victim's genuine certificate and issuer (certificates are not secret: they cross the wire in every handshake)
+		claim = victim
+		ski := [][]byte{victim.id.Pkix, []byte("attacker-leaf"), nil}[tp.Draw(3)]
+		der := mintLeaf(nil, atkKey, atkPub, ski, victim.id.KeyId, x509.ExtKeyUsageClientAuth, now.Add(-time.Hour), now.Add(24*time.Hour))
+		vb := victim.creds.CertificateBundles[tp.Draw(2)]
+		adv.chain, adv.key, adv.holdsKey = [][]byte{der, vb.CertificateDer, vb.CaCertificateDer}, atkKey, true
 	case "self-signed-p256-naming-victim":
 		// a self-signed certificate of ANOTHER key algorithm whose subject key ID names the victim's key
 		claim = victim
